@@ -53,6 +53,10 @@ const INS: &[Ins] = &[
     Ins { key: "mov_al_[rsp]", bytes: &[0x8a, 0x04, 0x24], regs: &["rsp"], base: Some("rsp"), index: None, disp: 0, has_mem: true },
     Ins { key: "mov_rax_[r12+r13*2]", bytes: &[0x4b, 0x8b, 0x04, 0x6c], regs: &["r12", "r13"], base: Some("r12"), index: Some(("r13", 2)), disp: 0, has_mem: true },
     Ins { key: "add_[r8+r9*4-8]_rdx", bytes: &[0x4b, 0x01, 0x54, 0x88, 0xf8], regs: &["r8", "r9"], base: Some("r8"), index: Some(("r9", 4)), disp: -8, has_mem: true },
+    // base sorts after index / "r10" < "r9" as strings / the same register twice: BTreeSet order and dedup
+    Ins { key: "mov_rax_[rcx+rbx*1]", bytes: &[0x48, 0x8b, 0x04, 0x19], regs: &["rcx", "rbx"], base: Some("rcx"), index: Some(("rbx", 1)), disp: 0, has_mem: true },
+    Ins { key: "mov_rax_[r9+r10*1]", bytes: &[0x4b, 0x8b, 0x04, 0x11], regs: &["r9", "r10"], base: Some("r9"), index: Some(("r10", 1)), disp: 0, has_mem: true },
+    Ins { key: "mov_rax_[rbx+rbx*1]", bytes: &[0x48, 0x8b, 0x04, 0x1b], regs: &["rbx", "rbx"], base: Some("rbx"), index: Some(("rbx", 1)), disp: 0, has_mem: true },
     Ins { key: "mov_eax_[eax]", bytes: &[0x67, 0x8b, 0x00], regs: &["eax"], base: None, index: None, disp: 0, has_mem: false },
     Ins { key: "mov_rax_[rip+256]", bytes: &[0x48, 0x8b, 0x05, 0x00, 0x01, 0x00, 0x00], regs: &["rip"], base: Some("rip"), index: None, disp: 256, has_mem: true },
     Ins { key: "jmp_[rax]", bytes: &[0xff, 0x20], regs: &["rax"], base: Some("rax"), index: None, disp: 0, has_mem: true },
@@ -717,6 +721,18 @@ fn run_case(c: &Case, res: &mut ImplResult) -> Observed {
     res.tags.push(format!("op:{op}"));
     res.tags.push(format!("adjusted:{}", if nullptr { "nullptr" } else if noncanon.is_some() { "noncanonical" } else { "none" }));
     res.tags.push(format!("flips:{}", match info.possible_bit_flips.len() { 0 => "0", 1 => "1", 2..=4 => "2-4", _ => "5+" }));
+    for f in &info.possible_bit_flips {
+        let v = match f.source_register {
+            None => Some(main_examined),
+            Some(reg) => regs.as_ref().map(|r| reg_of(r, reg)),
+        };
+        if let Some(v) = v {
+            let d = f.address.0 ^ v;
+            if d.count_ones() == 1 {
+                res.tags.push(format!("flipped-bit:{}", match d.trailing_zeros() { 0..=11 => "0-11", 12..=46 => "12-46", 47 => "47", 48 => "48", 49..=62 => "49-62", _ => "63" }));
+            }
+        }
+    }
     if info.possible_bit_flips.iter().any(|f| f.source_register.is_some()) {
         res.tags.push("register-pass-flip".into());
     }
@@ -859,8 +875,15 @@ fn gen_addr(rng: &mut Rng, kind: &MapKind, rs: &[Region]) -> u64 {
             }
         }
     };
+    let bit = |rng: &mut Rng| -> u64 {
+        match rng.below(8) {
+            0 => *rng.pick(&[0u64, 11, 12, 13, 46, 47, 48, 49, 62, 63]), // boundaries of the ranges / page / cut-offs
+            1 => 48 + rng.below(16),
+            _ => rng.below(64),
+        }
+    };
     match rng.below(16) {
-        0..=6 => inside(rng) ^ (1u64 << rng.below(64)), // a single-bit neighbour of mapped memory
+        0..=6 => inside(rng) ^ (1u64 << bit(rng)), // a single-bit neighbour of mapped memory
         7 => inside(rng),                                 // accessible itself
         8 => 1u64 << rng.below(64),                       // neighbour of NULL
         9 => rng.below(0x3000),                           // near NULL / low
@@ -981,6 +1004,24 @@ fn gen_case(rng: &mut Rng, big: bool) -> Case {
                 }
             }
         }
+        let gpf = (os == "win" && exc.code == 0xc0000005 && exc.nparams >= 2 && exc.info0 == 0 && exc.info1 == u64::MAX)
+            || (os == "linux" && exc.flags == 0x80)
+            || (os == "mac" && exc.flags == 13);
+        if cpu == "amd64" && gpf && rng.chance(3, 4) {
+            if let Some(i) = INS.iter().find(|i| i.key == ins) {
+                if let Some(b) = i.base {
+                    if b != "rip" {
+                        let target = gen_addr(rng, &kind, &regions);
+                        let val = match rng.below(4) {
+                            0 => target ^ (1u64 << 47),
+                            _ => target ^ (1u64 << (48 + rng.below(16))),
+                        };
+                        v.retain(|(n, _)| n != b && Some(n.as_str()) != i.index.map(|x| x.0));
+                        v.push((b.to_string(), val.wrapping_sub(i.disp as u64)));
+                    }
+                }
+            }
+        }
         Some(v)
     };
     Case { cpu, os, exc, regs, ins, kind, regions }
@@ -991,7 +1032,7 @@ impl Engine for Bitflip {
         "bitflip"
     }
     fn rule(&self) -> String {
-        "case = synthesized minidump (cpu amd64/x86/arm64/ppc64/mips64/arm/ppc/unknown; os win/linux/mac; exception record incl. Windows AV read/write/exec, GPF shapes of the three OSes; exception context with all 17 amd64 / 39 ppc64 registers or none; memory at rip holding one of 17 encodings with base/index registers; memory-info list or Linux maps (or both, or none) with 0..64 regions of every protection/permission mix incl. NULL page, region ending at 2^64-1, empty, overflowing and overlapping regions), crash address chosen as a one-bit / two-bit neighbour of mapped memory, of NULL, inside a region, around the canonical boundary or random. Plus BitFlipDetails::confidence on all combinations of its inputs. non-trivial = at least one flip reported, or a 64-bit non-ARM64 dump with a non-empty map whose examined address is not mapped; distinct = distinct case line".into()
+        "case = synthesized minidump (cpu amd64/x86/arm64/ppc64/mips64/arm/ppc/unknown; os win/linux/mac; exception record incl. Windows AV read/write/exec, GPF shapes of the three OSes; exception context with all 17 amd64 / 39 ppc64 registers or none; memory at rip holding one of 20 encodings with base/index registers; memory-info list or Linux maps (or both, or none) with 0..64 regions of every protection/permission mix incl. NULL page, region ending at 2^64-1, empty, overflowing and overlapping regions), crash address chosen as a one-bit / two-bit neighbour of mapped memory, of NULL, inside a region, around the canonical boundary or random. Plus BitFlipDetails::confidence on all combinations of its inputs. non-trivial = at least one flip reported, or a 64-bit non-ARM64 dump with a non-empty map whose examined address is not mapped; distinct = distinct case line".into()
     }
     fn exhaustive_part(&self) -> Option<String> {
         Some("BitFlipDetails::confidence(): all 2^4 flag combinations x nearby_registers in {0,1,2,3,4,5,17,2^32-1} (128 records; the function only distinguishes min(nearby,4))".into())
@@ -1010,7 +1051,7 @@ impl Engine for Bitflip {
                 ));
             }
         }
-        let n = if tier == Tier::Quick { 6000 } else { 80000 };
+        let n = if tier == Tier::Quick { 40000 } else { 600000 };
         for i in 0..n {
             let c = gen_case(rng, i % 8 == 7);
             emit(render(&c));
